@@ -8,5 +8,7 @@ java -version 2>&1 | head -1
 (cd harness && cargo build --offline --workspace 2>&1 | tail -3)
 # feature builds used by the quick tier (valid-object bit)
 (cd harness && cargo build --offline -p gcdrive --features vo_bit 2>&1 | tail -1)
+# pin_object runs of C04
+(cd harness && cargo build --offline -p gcdrive --features object_pinning 2>&1 | tail -1)
 if [ -x ./setup_extra.sh ]; then ./setup_extra.sh; fi
 echo "setup done"
